@@ -2105,7 +2105,13 @@ func c10FreshMeasurements(p *Prog, r *Report, rule, which string) {
 		}) {
 			info := fi.Pkg.TypesInfo
 			for _, id := range f.ReturnNodes() {
-				if rs := f.returnStmt(id); rs != nil && len(rs.Results) == 2 && isNilIdent(info, rs.Results[1]) {
+				rs := f.returnStmt(id)
+				if rs == nil || len(rs.Results) != 2 {
+					continue
+				}
+				// the success return: the error is nil, or a variable (named results answered through one return)
+				_, errIsVar := ast.Unparen(rs.Results[1]).(*ast.Ident)
+				if isNilIdent(info, rs.Results[1]) || errIsVar {
 					res = append(res, struct {
 						node int
 						e    ast.Expr
